@@ -821,6 +821,82 @@ pub fn m7(level: u8) -> Vec<Model> {
     out
 }
 
+/// M8: medium-sized models (5 variables with 2-5 values each, 3 constraints from a pool of 34 over
+/// all constraint kinds): every `stride`-th triple in lexicographic order, kept when the reference
+/// has at most 250 solutions. Their complete enumeration drives incremental propagator state,
+/// learned nogoods, restarts and the nogood database through much longer runs than M1-M7.
+pub fn m8(level: u8) -> Vec<Model> {
+    let vars = vec![
+        VarDecl::interval(0, 4),
+        VarDecl::interval(-2, 2),
+        VarDecl::from_values(&[0, 1, 3, 4, 6]),
+        VarDecl::interval(0, 3),
+        VarDecl::lit(),
+    ];
+    let v = View::id;
+    let n = |i: usize, a: i32, b: i32| View::new(i, a, b);
+    let pool: Vec<Con> = vec![
+        Con::LinLe(vec![v(0), v(1), v(2)], 4),
+        Con::LinLe(vec![n(0, -1, 0), n(2, -1, 0), v(3)], -5),
+        Con::LinEq(vec![v(0), v(1), v(3)], 3),
+        Con::LinEq(vec![n(0, 2, 0), n(1, -1, 0), v(2)], 6),
+        Con::LinNe(vec![v(0), v(2), v(3)], 6),
+        Con::LinNe(vec![v(1), n(2, -1, 0), v(3), v(4)], -1),
+        Con::LinNe(vec![n(0, 2, 0), v(1), v(4)], 3),
+        Con::BinNe(v(0), v(3)),
+        Con::BinNe(n(1, 1, 2), v(2)),
+        Con::BinLe(v(3), v(0)),
+        Con::BinLt(v(1), v(3)),
+        Con::BinEq(n(4, 3, 0), v(2)),
+        Con::AllDiff(vec![v(0), v(2), v(3)]),
+        Con::AllDiff(vec![v(0), n(1, 1, 2), v(3), n(4, 4, 0)]),
+        Con::Plus(v(0), v(1), v(3)),
+        Con::Times(v(3), v(4), v(0)),
+        Con::Times(v(1), v(1), v(0)),
+        Con::Abs(v(1), v(3)),
+        Con::Max(vec![v(0), v(3)], v(2)),
+        Con::Min(vec![v(0), v(2), v(3)], n(1, 1, 1)),
+        Con::Div(v(2), n(3, 1, 1), v(0)),
+        Con::Element { index: v(3), array: vec![v(0), v(1), v(2), n(4, 2, 0)], rhs: v(0) },
+        Con::Element { index: v(4), array: vec![v(2), v(0)], rhs: n(3, 2, 0) },
+        Con::Cumulative { starts: vec![v(0), v(2), v(3)], durations: vec![2, 1, 2], usages: vec![1, 2, 1], cap: 2, opts: CumOpts::default_opts() },
+        Con::Cumulative { starts: vec![v(0), n(1, 1, 2), v(3)], durations: vec![1, 2, 2], usages: vec![1, 1, 1], cap: 1, opts: CumOpts::default_opts() },
+        Con::PredClause(vec![Pred::new(0, PredKind::Eq, 1), Pred::new(0, PredKind::Eq, 3), Pred::new(2, PredKind::Ge, 4)]),
+        Con::PredClause(vec![Pred::new(1, PredKind::Ne, 0), Pred::new(3, PredKind::Le, 1), Pred::new(4, PredKind::Ge, 1)]),
+        Con::PredClause(vec![Pred::new(2, PredKind::Ne, 3), Pred::new(2, PredKind::Ne, 4), Pred::new(0, PredKind::Le, 0)]),
+        Con::ViewClause(vec![(n(1, 2, 1), PredKind::Eq, -3), (n(0, -1, 0), PredKind::Le, -3)]),
+        Con::Implied(Lit::p(4), Box::new(Con::LinLe(vec![v(0), v(3)], 3))),
+        Con::Reified(Lit::p(4), Box::new(Con::BinNe(v(0), v(2)))),
+        Con::Reified(Lit::n(4), Box::new(Con::LinEq(vec![v(1), v(3)], 1))),
+        Con::BoolLinLe(vec![2], vec![Lit::p(4)], 1),
+        Con::Neg(Box::new(Con::BinEq(v(0), v(2)))),
+    ];
+    let stride = if level >= 1 { 3 } else { 29 };
+    let mut out = vec![];
+    let mut k = 0usize;
+    for i in 0..pool.len() {
+        for j in i + 1..pool.len() {
+            for l in j + 1..pool.len() {
+                k += 1;
+                if k % stride != 0 {
+                    continue;
+                }
+                let m = Model::new(vars.clone(), vec![pool[i].clone(), pool[j].clone(), pool[l].clone()]);
+                let mut count = 0usize;
+                m.for_each_assignment(|a| {
+                    if count <= 250 && m.holds(a) {
+                        count += 1;
+                    }
+                });
+                if count <= 250 {
+                    out.push(m);
+                }
+            }
+        }
+    }
+    out
+}
+
 /// Is the model non-trivial: neither every assignment is a solution nor none.
 pub fn nontrivial(model: &Model, num_solutions: usize) -> bool {
     num_solutions > 0 && (num_solutions as u64) < model.space_size()
